@@ -95,7 +95,114 @@ def run_case(case):
 
 
 # ------------------------------------------------------ sync drivers ----
+class _DaliserverModel:
+    """Stands in for the socket module inside dali.driver.daliserver: a daliserver that answers every
+    4-byte request with one 4-byte reply, in order, per connection."""
+
+    def __init__(self, outcomes):
+        self.outcomes = outcomes      # (bits, value) -> outcome
+        self.conns = []
+
+    def create_connection(self, target):
+        c = _DaliserverConn(self)
+        self.conns.append(c)
+        return c
+
+
+class _DaliserverConn:
+    def __init__(self, model):
+        self.model = model
+        self.replies = []
+        self.requests = []
+        self.closed = False
+
+    def send(self, data):
+        data = bytes(data)
+        self.requests.append(data)
+        if len(data) == 4 and data[0] == 2 and data[1] == 0:
+            oc = self.model.outcomes.get((16, (data[2] << 8) | data[3]), ("silent",))
+            if oc[0] == "value":
+                self.replies.append(bytes([2, 1, oc[1], 0]))
+            elif oc[0] == "error":
+                self.replies.append(bytes([2, 255, 0, 0]))
+            else:
+                self.replies.append(bytes([2, 0, 0, 0]))
+        else:
+            self.replies.append(bytes([2, 254, 0, 0]))       # daliserver's "error" status for a malformed request
+        return len(data)
+
+    def recv(self, n):
+        if not self.replies:
+            return b""
+        return self.replies.pop(0)
+
+    def close(self):
+        self.closed = True
+
+
+def run_daliserver(case):
+    import dali.driver.daliserver as D
+    out = []
+    outcomes = {}
+    cmds = []
+    for c in case["cmds"]:
+        cmd = sc.build_cmd(c)
+        cmds.append((c, cmd))
+        outcomes[sc.frame_key(cmd)] = tuple(c.get("oc", ("silent",)))
+    model = _DaliserverModel(outcomes)
+    saved = D.socket
+    D.socket = model
+    try:
+        persistent = bool(case.get("persistent"))
+        results = []
+        try:
+            if persistent:
+                with D.DaliServer(multiple_frames_per_connection=True) as d:
+                    for c, cmd in cmds:
+                        results.append(d.send(cmd))
+            else:
+                d = D.DaliServer()
+                for c, cmd in cmds:
+                    results.append(d.send(cmd))
+        except Exception as e:  # noqa
+            if library_frame(e.__traceback__) is None:
+                raise
+            return [("C16:daliserver:send-raised:%s" % type(e).__name__, "daliserver history %r (%s): %r"
+                     % ([c["k"] for c, _ in cmds], "persistent" if persistent else "per-command", e))]
+    finally:
+        D.socket = saved
+    mode = "persistent connection" if persistent else "connection per command"
+    for (c, cmd), res in zip(cmds, results):
+        oc = tuple(c.get("oc", ("silent",)))
+        where = "daliserver (%s) %s outcome %r in history %r" % (mode, c, oc, [x["k"] for x, _ in cmds])
+        got = sc.describe_response(res)
+        if cmd.response is None:
+            if got["type"] is not None:
+                out.append(("C16:daliserver:answer-for-non-query", "%s: returned %r" % (where, got)))
+            continue
+        exp_type = cmd.response.__module__ + "." + cmd.response.__qualname__
+        if got["type"] != exp_type:
+            out.append(("C16:daliserver:wrong-response-type", "%s: returned %r, expected %s" % (where, got["type"], exp_type)))
+            continue
+        exp = ["none"] if oc[0] == "silent" else ["value", oc[1]] if oc[0] == "value" else ["error"]
+        if got["raw"][:len(exp)] != exp:
+            kind = "stale-or-foreign-answer" if got["raw"][0] in ("value", "none") and exp[0] != got["raw"][0] or \
+                (got["raw"][0] == "value" and exp[0] == "value") else "wrong-raw-value"
+            out.append(("C16:daliserver:%s" % kind, "%s: raw %r expected %r" % (where, got["raw"], exp)))
+    left = sum(len(c.replies) for c in model.conns if not c.closed)
+    if left and not out:
+        out.append(("C16:daliserver:reply-left-unread", "daliserver (%s) history %r: %d repl%s left unread on the open connection"
+                    % (mode, [x["k"] for x, _ in cmds], left, "y" if left == 1 else "ies")))
+    for cn in model.conns:
+        for rq in cn.requests:
+            if len(rq) != 4:
+                out.append(("C16:daliserver:malformed-request", "request %r" % (rq,)))
+    return out
+
+
 def run_sync(case):
+    if case["driver"] == "daliserver":
+        return run_daliserver(case)
     from props import c18
     from dali import command
     drv = case["driver"]
@@ -186,9 +293,9 @@ def async_case(draw, driver=None):
 @st.composite
 def sync_case(draw):
     drv = draw(st.sampled_from(["daliserver", "atx"]))
-    pool = Q16 + N16 + ["dtquery", "dtcmd"] if drv == "daliserver" else Q16 + ["dapc", "off"]
+    pool = Q16 + N16 + ["dtquery", "dtcmd", "reset", "dttwice"] if drv == "daliserver" else Q16 + ["dapc", "off"]
     cmds = []
-    for j in range(draw(st.integers(1, 4))):
+    for j in range(draw(st.integers(1, 6 if drv == "daliserver" else 4))):
         k = draw(st.sampled_from(pool))
         c = {"k": k, "a": 3 + j}
         cmd = sc.build_cmd(c)
@@ -196,12 +303,19 @@ def sync_case(draw):
             o = draw(st.sampled_from(["silent", "value", "error"] if drv == "daliserver" else ["silent", "value"]))
             c["oc"] = ["value", draw(st.integers(0, 255))] if o == "value" else [o] if o == "silent" else ["error", 0]
         cmds.append(c)
-    return {"driver": drv, "cmds": cmds}
+    case = {"driver": drv, "cmds": cmds}
+    if drv == "daliserver":
+        case["persistent"] = draw(st.booleans())
+    return case
 
 
 def features(case):
     f = ["driver:" + case["driver"]]
     if "cmds" in case:
+        if case.get("persistent"):
+            f.append("daliserver:persistent-connection")
+        if any(x["k"] in ("reset", "dttwice") for x in case["cmds"]):
+            f.append("send-twice")
         return f
     if len(case["callers"]) > 1:
         f.append("multi-caller")
